@@ -71,6 +71,35 @@ Fixpoint consume (mops : list op) (obs : list op) : option (list op) :=
       end
   end.
 
+(* the observed trace ends inside the model's operations [mops] (the process exited while
+   the router was still working): everything observed is a prefix of them *)
+Fixpoint cut_ok (mops : list op) (obs : list op) : bool :=
+  match obs with
+  | [] => true
+  | o' :: obs' =>
+      match mops with
+      | [] => false
+      | OClose _ :: r => cut_ok r obs
+      | OWrite k c :: r =>
+          match snd c with
+          | [] => cut_ok r obs
+          | _ =>
+            match o' with
+            | OWrite k' c' =>
+                if key_eqb k k' then
+                  match strip_prefix (snd c) (snd c') with
+                  | Some [] => cut_ok r obs'
+                  | Some rest => cut_ok r (OWrite k' (None, rest) :: obs')
+                  | None => prefixb (snd c') (snd c) && match obs' with [] => true | _ => false end
+                  end
+                else false
+            | _ => false
+            end
+          end
+      | o :: r => if op_eqb o o' then cut_ok r obs' else false
+      end
+  end.
+
 Definition new_ops (s s' : st) : list op :=
   rev (firstn (length (rtrace s') - length (rtrace s)) (rtrace s')).
 
@@ -101,7 +130,12 @@ Fixpoint explain (fuel : nat) (c : cfg) (ticks : bool) (s : st) (now : Z) (evs :
             | [] => None
             | ops => match consume ops obs with
                      | Some obs' => explain f c ticks s' now evs obs'
-                     | None => None
+                     | None =>
+                         (* at the very end the process may exit in the middle of a tick *)
+                         match evs with
+                         | [] => if cut_ok ops obs then Some s else None
+                         | _ => None
+                         end
                      end
             end
           else None
